@@ -637,7 +637,27 @@ class Body:
             return None
         out = []
         ok = self._variant_defs(place["local"], (ds[0][0], ds[0][1]), out, 0, bool(place["proj"]))
-        return out if ok and len(out) > 1 else None
+        if ok and len(out) > 1:
+            return out
+        # `x?` : the discriminant tested is that of Try::branch(x); Continue <=> x was Ok/Some
+        d2 = self.defs().get(place["local"], [])
+        if len(d2) == 1 and d2[0][2] == "call" and d2[0][3]["callee"].get("decl") == "std::ops::Try::branch":
+            arg = d2[0][3]["args"][0]
+            site2 = (d2[0][0], d2[0][1])
+            for _ in range(4):    # through .with_context(..) / .context(..) / .map_err(..)
+                if arg.get("k") in ("copy", "move") and not arg["place"]["proj"]:
+                    d3 = self.defs().get(arg["place"]["local"], [])
+                    if len(d3) == 1 and d3[0][2] == "call" and d3[0][3]["callee"].get("name") in ("with_context", "context", "map_err") and d3[0][3]["args"]:
+                        arg = d3[0][3]["args"][0]
+                        site2 = (d3[0][0], d3[0][1])
+                        continue
+                break
+            if arg.get("k") in ("copy", "move") and not arg["place"]["proj"]:
+                out = []
+                if self._variant_defs(arg["place"]["local"], site2, out, 0, False) and len(out) > 1:
+                    m = {"Ok": "Continue", "Some": "Continue", "Err": "Break", "None": "Break"}
+                    return [(s0, m.get(v, v)) for s0, v in out]
+        return None
 
     def _variant_defs(self, local, site, out, depth, through_ref):
         if depth > 6:
@@ -1215,6 +1235,11 @@ def norm_cond(e, truth):
     if op is None:
         if e[0] == "const":
             return ("const", bool(e[1]) == truth)
+        if e[0] == "call" and len(e[2]) == 1 and e[1].split("::")[-1] in ("is_some", "is_none", "is_ok", "is_err"):
+            nm = e[1].split("::")[-1]
+            pos = {"is_some": "Some", "is_none": "None", "is_ok": "Ok", "is_err": "Err"}[nm]
+            neg = {"Some": "None", "None": "Some", "Ok": "Err", "Err": "Ok"}[pos]
+            return ("in", ("discr", strip_load(e[2][0])), frozenset([pos if truth else neg]))
         return ("bool", e, truth)
     if not truth:
         op = NEG[op]
